@@ -2,6 +2,7 @@ package hist
 
 import (
 	"github.com/tencent/goom/verifsim/rng"
+	"github.com/tencent/goom/verifsim/simenv"
 	"github.com/tencent/goom/verifsim/world"
 )
 
@@ -230,6 +231,13 @@ func WellFormed(p *world.Plan) bool {
 // Gen builds a well-formed history for prop.
 func (W) Gen(prop string, seed uint64, tier string) *world.Plan {
 	r := rng.Derive(seed, 0x4157)
+	if (prop == "C01" || prop == "C06") && r.Chance(120) {
+		// "from any goroutine" / "for every instance": a share of the plans runs the same targets in
+		// the concurrent world (several mocker tasks with their own builders plus caller tasks)
+		if cw := world.Get("conc"); cw != nil {
+			return cw.Gen(prop, seed, tier)
+		}
+	}
 	p := &world.Plan{Prop: prop, World: "hist", Seed: seed, Knobs: map[string]int{}}
 	// swarm knobs
 	p.Sched.GCPermille = []int{0, 0, 30, 150}[r.Intn(4)]
@@ -376,6 +384,13 @@ func candidates(prop string) []int {
 	for _, t := range Targets {
 		if t.Known != "" {
 			continue // only the known finding's witness plan uses these
+		}
+		if t.Generic && simenv.RaceBuild {
+			// under -race the instantiation wrapper starts with a call into the race runtime, which
+			// goom's "first CALL in the wrapper" heuristic mistakes for the shape body: mocking a
+			// generic method in a race build patches runtime.racefuncenter (observed: unbounded
+			// recursion). A limitation of goom under -race, outside every statement; not generated.
+			continue
 		}
 		switch prop {
 		case "C06":
